@@ -16,12 +16,18 @@ RULE = ("seeded single calls of every function/method/operator with a NumPy name
         "(__array_function__/__array_ufunc__), Tensor methods and operators with axis/keepdims/ddof options. The identical call is made by "
         "NumPy on the underlying arrays; values (array_equal, NaN==NaN), shape and dtype must be identical, and identical again when the "
         "MyGrad call runs under no_autodiff. Calls NumPy itself rejects are skipped. Non-trivial: the NumPy call returned; distinct = "
-        "(function, spelling, option keys, operand kinds and dtypes).")
+        "(function, spelling, option keys, operand kinds and dtypes). (c) every fourth case: the NON-differentiable namesakes on the same "
+        "operand lattice - boolean-valued ufuncs (isfinite/isinf/isnan/signbit/logical_*/equal/.../less_equal, optional out=), the six "
+        "comparison operators, the rounding/modulo family (ceil/floor/rint/sign/trunc/floor_divide/fmod/remainder/divmod, // and its "
+        "reflection; constant operands mostly, non-constant ones must be refused with ValueError), argmax/argmin/any as np.f, mg.f and "
+        "methods with axis/keepdims, allclose/isclose/shares_memory/may_share_memory/result_type/shape/min_scalar_type, and the scalar "
+        "conversions float()/int()/item()/len()/in/operator.index/tolist: same value, shape, dtype (or Python type) as NumPy on the "
+        "arrays, never a Tensor, operands untouched, nothing recorded or locked; tracked and under no_autodiff.")
 ASSUMPTIONS = ["NumPy 2.x value-based casting rules (NEP 50) on the same operands are the specification",
                "MyGrad raising where NumPy returns is recorded (mg_raises_only), judged by other properties"]
 TIERS = {"quick": {"cases": 40000}, "thorough": {"cases": 1500000}}
-FLOORS = {"quick": {"compared": 6000, "compared_untracked": 6000},
-          "thorough": {"compared": 30000, "compared_untracked": 30000}}
+FLOORS = {"quick": {"compared": 6000, "compared_untracked": 6000, "nondiff_compared": 5000, "nondiff_refused_nonconstant": 100},
+          "thorough": {"compared": 30000, "compared_untracked": 30000, "nondiff_compared": 25000, "nondiff_refused_nonconstant": 500}}
 
 DTYPES = ["bool", "int8", "int32", "int64", "uint8", "float16", "float32", "float64"]
 SPECIALS = [0.0, -0.0, float("inf"), float("-inf"), float("nan"), 1.0, -1.0]
@@ -138,7 +144,10 @@ def gen_other_case(rng):
 
 def gen_case(rng, cfg, idx):
     for _ in range(10):
-        c = gen_ufunc_case(rng) if rng.random() < 0.5 else gen_other_case(rng)
+        if idx % 4 == 3:
+            c = gen_nondiff_case(rng)
+        else:
+            c = gen_ufunc_case(rng) if rng.random() < 0.5 else gen_other_case(rng)
         if c is not None:
             return c
     return None
@@ -228,6 +237,8 @@ def compare(tag, got, want, viol, fn, case, cnt, key):
 
 
 def run_case(case):
+    if "nd" in case:
+        return run_nondiff(case)
     REG.reset()
     fn = case["call"]["fn"]
     cnt, viol, sets = {}, [], {}
@@ -282,4 +293,251 @@ def classify(v, case):
     m = v.get("mech") or v["monitor"]
     if v.get("pyscalar") and (m.startswith("dtype:") or m.startswith("value:")):
         return "pyscalar-strong-promotion"
+    if v.get("pyscalar_strong") and m.startswith("nondiff-value:"):
+        return "pyscalar-strong-comparison"
     return m
+
+
+# ------------------------------------------------------------------------------------------------------------------
+# Non-differentiable namesakes: boolean-valued ufuncs and comparison operators, the rounding/modulo family, arg-reductions,
+# predicates, scalar conversions. They must return what NumPy returns on the underlying arrays - as plain NumPy objects.
+import operator as _op_
+
+ND_BOOL1 = ["isfinite", "isinf", "isnan", "logical_not", "signbit"]
+ND_BOOL2 = ["equal", "not_equal", "greater", "greater_equal", "less", "less_equal", "logical_and", "logical_or", "logical_xor"]
+ND_CONST1 = ["ceil", "floor", "rint", "sign", "trunc"]
+ND_CONST2 = ["floor_divide", "fmod", "remainder", "divmod"]
+ND_CMP_OPS = {"lt": _op_.lt, "le": _op_.le, "gt": _op_.gt, "ge": _op_.ge, "eq": _op_.eq, "ne": _op_.ne}
+ND_ARGRED = ["argmax", "argmin", "any"]
+ND_FUNCS2 = ["allclose", "isclose", "may_share_memory", "shares_memory", "result_type"]
+ND_FUNCS1 = ["shape", "min_scalar_type"]
+ND_CONV = ["float", "int", "item", "len", "contains", "index", "tolist_via_array"]
+
+
+def gen_nondiff_case(rng):
+    b = B.Builder(rng)
+    b.allow_empty = True
+    b.allow_nonfinite = True
+    group = rng.choice(["bool1", "bool2", "bool2", "const1", "const2", "cmp", "cmp", "floordiv", "argred", "argred", "func2", "func1", "conv"])
+    fn = {"bool1": ND_BOOL1, "bool2": ND_BOOL2, "const1": ND_CONST1, "const2": ND_CONST2, "cmp": sorted(ND_CMP_OPS), "floordiv": ["floordiv", "rfloordiv"],
+          "argred": ND_ARGRED, "func2": ND_FUNCS2, "func1": ND_FUNCS1, "conv": ND_CONV}[group]
+    fn = rng.choice(fn)
+    nargs = 2 if group in ("bool2", "const2", "cmp", "floordiv", "func2") or fn == "contains" else 1
+    r = rng.random()
+    shape = () if r < 0.2 else B.rand_shape(rng, 3, 3, 0 if rng.random() < 0.1 else 1)
+    if group == "conv" and fn in ("float", "int", "item", "index"):
+        shape = rng.choice([(), (), (1,), (1, 1)])
+    if fn == "len" and shape == ():
+        shape = (2,)
+    names, kinds = [], []
+    tpos = rng.randrange(nargs)
+    for i in range(nargs):
+        dtype = rng.choice(DTYPES)
+        if fn == "index":
+            dtype = rng.choice(["int8", "int32", "int64", "uint8"])
+            shape = ()
+        kind = "tensor" if i == tpos else rng.choice(["tensor", "array", "npscalar", "pyscalar", "array"])
+        if group == "floordiv":
+            kind = "tensor" if i == 0 else rng.choice(["tensor", "array", "pyscalar"])
+        shp = shape if (i == tpos or rng.random() < 0.5) else B.bcast_variants(rng, shape)
+        if fn == "contains" and i == 1:
+            kind, shp = "pyscalar", ()
+        vals = rand_operand_values(rng, shp if kind in ("tensor", "array") else (), dtype)
+        if group in ("const2", "floordiv") and i == 1 and np.dtype(dtype).kind in "iub":
+            vals = np.where(vals == 0, 1, vals).astype(dtype)     # integer division by zero only produces warnings + garbage
+        if kind in ("pyscalar", "npscalar"):
+            name = b.name("p" if kind == "pyscalar" else "n")
+            b.emit({"k": "leaf", "out": name, "kind": kind, "dtype": dtype, "shape": [], "data": vals.item()}, check=False)
+            b.meta[name] = {"tensor": False, "nonconst": False, "deps": set(), "leaf": True}
+        else:
+            const = None
+            if kind == "tensor" and np.dtype(dtype).kind == "f":
+                # the rounding/modulo family must refuse non-constant tensors: mostly feed it constants, sometimes not
+                const = True if (group in ("const1", "const2", "floordiv") and rng.random() < 0.8) else rng.choice([None, None, True])
+            name = b.leaf(shp, kind=kind, dtype=dtype, values=vals, constant=const)
+            if kind == "tensor" and rng.random() < 0.4:
+                b.prog[-1]["nocopy"] = True
+        names.append(name)
+        kinds.append(f"{kind}:{dtype}")
+    if group in ("cmp", "bool2", "func2") and nargs == 2 and rng.random() < 0.5:
+        # a Python float next to a float16/float32 operand, equal to one of its elements once cast weakly (NEP 50) to that dtype
+        ks = [k.split(":") for k in kinds]
+        for i in (0, 1):
+            j = 1 - i
+            if ks[i][0] == "pyscalar" and ks[j][0] in ("tensor", "array") and ks[j][1] in ("float16", "float32"):
+                sti = next(st for st in b.prog if st.get("out") == names[i])
+                stj = next(st for st in b.prog if st.get("out") == names[j])
+                v = round(rng.uniform(-3, 3), 3)
+                if stj["data"]:
+                    sti["data"] = v
+                    sti["dtype"] = "float64"
+                    stj["data"][rng.randrange(len(stj["data"]))] = float(np.dtype(ks[j][1]).type(v))
+                    kinds[i] = "pyscalar:float64"
+    route = rng.choice(["np", "mg"])
+    kw = {}
+    if group == "argred":
+        route = rng.choice(["np", "mg", "meth"])
+        if shape and rng.random() < 0.6:
+            kw["axis"] = rng.randrange(-len(shape), len(shape))
+            if rng.random() < 0.4 and fn == "any":   # (mg.argmax/argmin document (a, axis, out) only: keepdims= is not a supported option)
+                kw["keepdims"] = True
+        if fn == "any" and shape and rng.random() < 0.2:
+            kw["axis"] = tuple(sorted(rng.sample(range(len(shape)), rng.randint(0, len(shape)))))
+    if group in ("bool1", "bool2", "const1") and rng.random() < 0.15:
+        kw["__out"] = True     # out= a fresh ndarray of the result's shape/dtype
+    if fn == "isclose" and rng.random() < 0.5:
+        kw["equal_nan"] = True
+    return {"prog": b.prog, "nd": {"group": group, "fn": fn, "route": route, "args": names, "kw": kw}, "kinds": kinds, "mseed": 0}
+
+
+def _nd_call(group, fn, route, args, kw, backend):
+    """One call. backend 'np': every Tensor already replaced by its array."""
+    import mygrad as mg
+    kw = dict(kw)
+    if group in ("bool1", "bool2", "const1", "const2", "func1", "func2"):
+        f = getattr(mg if (route == "mg" and backend == "mg") else np, fn)
+        return f(*args, **kw)
+    if group == "cmp":
+        return ND_CMP_OPS[fn](*args)
+    if group == "floordiv":
+        return args[0] // args[1] if fn == "floordiv" else args[1] // args[0]
+    if group == "argred":
+        if route == "meth":
+            return getattr(args[0], fn)(**kw)
+        return getattr(mg if (route == "mg" and backend == "mg") else np, fn)(args[0], **kw)
+    if fn == "float":
+        return float(args[0])
+    if fn == "int":
+        return int(args[0])
+    if fn == "item":
+        return args[0].item()
+    if fn == "len":
+        return len(args[0])
+    if fn == "contains":
+        return args[1] in args[0]
+    if fn == "index":
+        return _op_.index(args[0])
+    if fn == "tolist_via_array":
+        return np.asarray(args[0]).tolist()
+    raise KeyError(fn)
+
+
+def run_nondiff(case):
+    import mygrad as mg
+    import warnings
+    REG.reset()
+    nd = case["nd"]
+    group, fn, route = nd["group"], nd["fn"], nd["route"]
+    cnt, viol, sets = {}, [], {}
+    tag = f"{fn}:{route}"
+
+    def operands(backend):
+        it = Interp(backend, use_npf=True)
+        it.run(case["prog"], catch=False)
+        return [it.env[n] for n in nd["args"]]
+
+    def call(backend, untracked=False):
+        args = operands(backend)
+        kw = {k: v for k, v in nd["kw"].items() if k != "__out"}
+        outarr = None
+        if nd["kw"].get("__out"):
+            proto = np.asarray(_nd_call(group, fn, "np", operands("np"), kw, "np"))
+            outarr = np.full(proto.shape, 1, dtype=proto.dtype)
+            kw["out"] = outarr
+        with warnings.catch_warnings(), np.errstate(all="ignore"):
+            warnings.simplefilter("ignore")
+            if untracked:
+                with mg.no_autodiff:
+                    r = _nd_call(group, fn, route, args, kw, backend)
+            else:
+                r = _nd_call(group, fn, route, args, kw, backend)
+        return r, args, outarr
+
+    try:
+        want, _, wout = call("np")
+    except Exception as e:
+        return {"viol": [], "counters": {"np_raises": 1}, "skip": "numpy-rejects", "sets": {"np_raises": [f"{tag}:{type(e).__name__}"]}}
+    must_refuse = False
+    margs = operands("mg")
+    if group in ("const1", "const2", "floordiv"):
+        must_refuse = any(mgrun.is_tensor(a) and not a.constant for a in margs)
+    before = [np.array(a.data if mgrun.is_tensor(a) else a, copy=True) if isinstance(a, np.ndarray) or mgrun.is_tensor(a) else None for a in margs]
+    del margs
+    for untracked in (False, True):
+        key = "nondiff_compared_untracked" if untracked else "nondiff_compared"
+        try:
+            got, gargs, gout = call("mg", untracked)
+        except ValueError as e:
+            if must_refuse:
+                cnt["nondiff_refused_nonconstant"] = cnt.get("nondiff_refused_nonconstant", 0) + 1
+                continue
+            viol.append({"monitor": "O-np", "mech": f"nondiff-raises:{fn}", "msg": f"{tag} {case['kinds']} raised ValueError: {e} (NumPy returns; no non-constant operand)"})
+            break
+        except Exception as e:
+            viol.append({"monitor": "O-np", "mech": f"nondiff-raises:{fn}", "msg": f"{tag} {case['kinds']}{' under no_autodiff' if untracked else ''} raised {type(e).__name__}: {e}"})
+            break
+        if must_refuse and not untracked:
+            viol.append({"monitor": "refusal", "mech": f"nondiff-accepts-nonconstant:{fn}",
+                         "msg": f"{tag} {case['kinds']} accepted a non-constant tensor (returned {type(got).__name__}) instead of raising"})
+            break
+        if must_refuse and untracked:
+            cnt["nondiff_untracked_accepted"] = cnt.get("nondiff_untracked_accepted", 0) + 1
+        gs = got if isinstance(got, tuple) else (got,)
+        ws = want if isinstance(want, tuple) else (want,)
+        if len(gs) != len(ws):
+            viol.append({"monitor": "O-np", "mech": f"nondiff-arity:{fn}", "msg": f"{tag}: {len(gs)} results vs NumPy {len(ws)}"})
+            break
+        cnt[key] = cnt.get(key, 0) + 1
+        for g, w in zip(gs, ws):
+            if mgrun.is_tensor(g):
+                viol.append({"monitor": "type", "mech": f"nondiff-returns-tensor:{fn}", "msg": f"{tag} {case['kinds']} returned a Tensor (constant={g.constant})"})
+                break
+            if isinstance(w, (np.ndarray, np.generic)) or isinstance(g, (np.ndarray, np.generic)):
+                ga, wa = np.asarray(g), np.asarray(w)
+                if ga.dtype != wa.dtype or ga.shape != wa.shape or not np.array_equal(ga, wa, equal_nan=ga.dtype.kind in "fc"):
+                    strong = False
+                    if any(k.startswith("pyscalar") for k in case["kinds"]):
+                        # mechanism probe: NumPy's own answer when every Python scalar is first made a (strongly typed) 0-d array
+                        try:
+                            kw2 = {k: v for k, v in nd["kw"].items() if k != "__out"}
+                            a2 = [np.asarray(a) if isinstance(a, (bool, int, float)) else a for a in operands("np")]
+                            with warnings.catch_warnings(), np.errstate(all="ignore"):
+                                warnings.simplefilter("ignore")
+                                w2 = np.asarray(_nd_call(group, fn, "np", a2, kw2, "np"))
+                            strong = ga.dtype == w2.dtype and ga.shape == w2.shape and np.array_equal(ga, w2, equal_nan=ga.dtype.kind in "fc")
+                        except Exception:
+                            strong = False
+                    viol.append({"monitor": "O-np", "mech": f"nondiff-value:{fn}", "pyscalar_strong": strong,
+                                 "msg": f"{tag} {case['kinds']} kw={nd['kw']}: {ga.dtype}{ga.shape} {ga.ravel()[:4].tolist()} vs NumPy {wa.dtype}{wa.shape} {wa.ravel()[:4].tolist()}"})
+                    break
+                if isinstance(w, np.generic) != isinstance(g, np.generic):
+                    cnt["nondiff_scalar_vs_0d"] = cnt.get("nondiff_scalar_vs_0d", 0) + 1
+            else:
+                if isinstance(g, list) and isinstance(w, list):
+                    same = np.array_equal(np.asarray(g, dtype=object if not g else None), np.asarray(w, dtype=object if not w else None), equal_nan=False) \
+                        or repr(g) == repr(w)
+                else:
+                    same = (g == w) or (isinstance(g, float) and isinstance(w, float) and g != g and w != w)
+                if type(g) is not type(w) or not same:
+                    viol.append({"monitor": "O-np", "mech": f"nondiff-value:{fn}", "msg": f"{tag} {case['kinds']}: {g!r} ({type(g).__name__}) vs NumPy {w!r} ({type(w).__name__})"})
+                    break
+        if viol:
+            break
+        if gout is not None and not (gout.dtype == wout.dtype and np.array_equal(gout, wout, equal_nan=gout.dtype.kind in "fc")):
+            viol.append({"monitor": "O-np", "mech": f"nondiff-out:{fn}", "msg": f"{tag}: out= array holds {gout.ravel()[:4].tolist()} vs NumPy {wout.ravel()[:4].tolist()}"})
+            break
+        # operands untouched, nothing recorded on them
+        for a, b0 in zip(gargs, before):
+            if b0 is None:
+                continue
+            cur = a.data if mgrun.is_tensor(a) else a
+            if not np.array_equal(cur, b0, equal_nan=cur.dtype.kind in "fc"):
+                viol.append({"monitor": "immut", "mech": f"nondiff-mutates-operand:{fn}", "msg": f"{tag} changed an operand"})
+            if mgrun.is_tensor(a) and any(r() is not None for r in a._ops):
+                viol.append({"monitor": "graph", "mech": f"nondiff-records-consumer:{fn}", "msg": f"{tag} left a recorded consumer on its operand"})
+            if isinstance(cur, np.ndarray) and not cur.flags.writeable:
+                viol.append({"monitor": "locks", "mech": f"nondiff-leaves-lock:{fn}", "msg": f"{tag} left an operand read-only"})
+    sets["nondiff_fns"] = [tag]
+    sets["operand_kinds"] = case["kinds"]
+    sig = repr(("nd", fn, route, tuple(sorted(nd["kw"])), tuple(case["kinds"])))
+    return {"viol": viol[:2], "counters": cnt, "sets": sets, "sig": sig, "nontrivial": True}
